@@ -327,6 +327,81 @@ func (m *RemovalProtocol) AfterScan(ctx *h.ScanCtx) []h.Violation {
 		}
 	}
 	_ = run
+	// the nodes due in a scan form ONE request: refused as a whole when it would breach the cloud
+	// minimum, and no Node object is deleted before the cloud accepted the termination of every one of
+	// them. Evaluated where the grace-period reaper is certain to run on exactly the due nodes of the
+	// view (no force-tainted node, all members); injected failures may hit removal calls only.
+	onlyRemovalFaults := true
+	for _, e := range ctx.Entries {
+		if e.Err == "injected" && e.Op != sim.OpTerminate && e.Op != sim.OpK8sDelete {
+			onlyRemovalFaults = false
+		}
+	}
+	if onlyRemovalFaults && ctx.Res.Panic == nil && !ctx.Res.Killed && !ctx.Res.Exit && ctx.Res.Err == nil {
+		for _, g := range ctx.Groups {
+			if g.Dry || len(g.F) > 0 || len(g.Nodes) < g.Min || len(g.Nodes) > g.Max || len(g.U) < g.Min || m.lock.inWindow(g, ctx.Start) {
+				continue
+			}
+			dec := ref.Decide(g, ctx.Start)
+			if dec.Starve || dec.MaxAge || dec.Edge != "" || (dec.Class != "fast" && dec.Class != "slow" && dec.Class != "idle") {
+				continue
+			}
+			a := ctx.H.W.FindASG(g.ASGName)
+			if a == nil {
+				continue
+			}
+			member := map[string]bool{}
+			for _, in := range a.Instances {
+				member[sim.ProviderID(in.AZ, in.ID)] = true
+			}
+			for _, e := range ctx.Entries {
+				if e.Op == sim.OpTerminate && e.Err == "" {
+					if _, n := ctx.NodeOfInstance(e.Target); n != nil {
+						member[n.Spec.ProviderID] = true
+					}
+				}
+			}
+			soft, hard := softOf(g.Spec), hardOf(g.Spec)
+			due, allMembers := 0, true
+			for _, n := range g.T {
+				tt, readable := h.TaintTime(n)
+				age := ctx.Start.Sub(tt)
+				if readable && n.Annotations[h.NoDeleteKey] == "" && (age > hard || (age > soft && g.PodsOn[n.Name] == 0)) {
+					due++
+					if !member[n.Spec.ProviderID] {
+						allMembers = false
+					}
+				}
+			}
+			if due == 0 || !allMembers {
+				continue
+			}
+			ctx.H.Cov["c19.whole-batch-scans"]++
+			writes := ctx.WritesFor(g)
+			if g.CloudDesired-int64(due) < g.CloudMin || g.CloudDesired <= g.CloudMin {
+				for _, e := range writes {
+					if e.Op == sim.OpTerminate && e.Err == "" {
+						add("C19/partial-removal-of-a-refused-request", fmt.Sprintf("group %s: %d nodes are due, desired %d - %d < cloud minimum %d: the whole request must be refused, but %s was terminated", g.Name, due, g.CloudDesired, due, g.CloudMin, e.Target))
+						break
+					}
+				}
+				continue
+			}
+			attempts, failed := 0, false
+			for _, e := range writes {
+				if e.Op == sim.OpTerminate {
+					attempts++
+					failed = failed || e.Err != ""
+				}
+				if e.Op == sim.OpK8sDelete {
+					if attempts < due && !failed {
+						add("C19/k8s-delete-before-whole-request-accepted", fmt.Sprintf("group %s: %d nodes are due in this scan, but node %s was deleted from Kubernetes after only %d terminations had been requested", g.Name, due, e.Target, attempts))
+					}
+					break
+				}
+			}
+		}
+	}
 	// a node that escalator selects for removal and that is not a member of its group's ASG must
 	// stop the controller with the not-in-group error (fault-free scans, no minimum in the way)
 	if !ctx.Faulted && ctx.Res.Panic == nil && !ctx.Res.Killed && !ctx.Res.Exit {
@@ -506,6 +581,47 @@ func C19Scenarios(tier string) []*h.Scenario {
 		}
 		s.Events = func(hh *h.Hist, slot int) []h.Event {
 			return []h.Event{evASGEdit(g.ASG.Name, 2, 8), evASGEdit(g.ASG.Name, 1, 8), evASGEdit(g.ASG.Name, 4, 8), evRestart()}
+		}
+		out = append(out, s)
+	}
+	// a dozen nodes due in one scan: the batch is one request (refused as a whole when it would breach
+	// the cloud minimum; no Node object deleted before the cloud accepted every termination)
+	for _, min := range []int64{0, 2} {
+		g := StdGroup("g1")
+		g.Opts.MinNodes = 0
+		g.Opts.MaxNodes, g.ASG.Max = 14, 14
+		g.ASG.Min = min
+		s := &h.Scenario{Name: fmt.Sprintf("c19.twelve-due.min%d", min), Groups: []h.GroupSpec{g}, Slots: 3, Quantum: Q, MaxEventsPerSlot: 1, BoundCap: 1,
+			FaultOps: map[string]bool{sim.OpTerminate: true, sim.OpK8sDelete: true}}
+		s.Init = func(hh *h.Hist) {
+			a := InitASGs(hh)[0]
+			for i := 0; i < 12; i++ {
+				hh.W.AddNode(a, sim.NodeOpt{Age: time.Duration(40+i) * Q, TaintAge: dp(5 * Q)})
+			}
+			if min == 0 {
+				n := hh.W.AddNode(a, sim.NodeOpt{Age: 20 * Q})
+				hh.W.AddPod(podOn(g, n.Name, 500))
+			}
+		}
+		s.Events = func(hh *h.Hist, slot int) []h.Event { return []h.Event{evRestart()} }
+		out = append(out, s)
+	}
+	// the ASG replaces an instance (same count, same desired capacity): the new node is a member
+	{
+		g := StdGroup("g1")
+		g.Opts.MinNodes = 0
+		s := &h.Scenario{Name: "c19.instance-replaced", Groups: []h.GroupSpec{g}, Slots: 6, Quantum: Q, MaxEventsPerSlot: 1}
+		s.Init = func(hh *h.Hist) {
+			a := InitASGs(hh)[0]
+			hh.W.AddNode(a, sim.NodeOpt{Age: 20 * Q})
+			hh.W.AddNode(a, sim.NodeOpt{Age: 21 * Q})
+		}
+		s.Events = func(hh *h.Hist, slot int) []h.Event {
+			var ev []h.Event
+			for _, n := range groupNodes(hh, g, 2) {
+				ev = append(ev, evReplaceInstance(n.Name, false), evReplaceInstance(n.Name, true))
+			}
+			return append(ev, evRestart())
 		}
 		out = append(out, s)
 	}
